@@ -515,6 +515,15 @@ def get_unit(u: U):
     # exceptional exit (trace callback failed or cancellation at the trace await)
     u.check("C07.leak.get_releases_on_error", len(released) == 1 and len(made) == 0,
             "a failure after the connection was accounted releases it again")
+    if released:
+        taken = released[0][1]
+        closed = any(e[0] in ("proto.close", "proto.abort") and e[1] is taken for e in u.events)
+        repooled = any(isinstance(x, tuple) and x and x[0] is taken
+                       for q in [e.val for e in c._conns.entries.values()] for x in getattr(q, "appended", []))
+        u.check("C07.leak.get_error_connection_not_orphaned", closed or repooled,
+                "the open connection taken out of the pool is closed (or pooled again) when the reuse is abandoned: once "
+                "it is in neither _conns nor _acquired, connector.close() can no longer close it",
+                known=[("F7c", True)], witness={"released": True, "closed": closed, "repooled": repooled})
 
 
 @unit("C07", "connect", functions=[f"{MOD}:{CLS}.connect"], also=("C18",))
@@ -551,9 +560,12 @@ def connect_unit(u: U):
     def create_stub(self, req, traces, timeout):
         def res():
             interfere()
-            return mk_proto(u, "new_proto")
+            created.append(mk_proto(u, "new_proto"))
+            return created[-1]
 
         return stubs.SAwait(result=res, name="_create_connection", raises=(OSError("connect failed"),), on_raise=lambda e: interfere())
+
+    created = []
 
     def release_stub(self, key, proto):
         released.append((key, proto, len(u.events)))
@@ -610,6 +622,13 @@ def connect_unit(u: U):
                     "the placeholder is replaced by the protocol (count unchanged)")
             u.check("C07.leak.no_release_on_success", len(released) == 0, "a successful connect releases nothing")
         return
+    for np_ in created:
+        u.check("C07.leak.created_connection_not_orphaned",
+                any(e[0] in ("proto.close", "proto.abort") and e[1] is np_ for e in u.events),
+                "a connection that was established but is not handed to the caller (a create_end trace callback failed, "
+                "cancellation, connector closed meanwhile) is closed: it is in neither _conns nor _acquired, so "
+                "connector.close() would never close it",
+                known=[("F7c", True)])
     if p is not None:
         closed_path = isinstance(out.exc, c_live().ClientConnectionError) and "closed" in str(out.exc)
         if not closed_path:
